@@ -2,7 +2,8 @@
   Driver verb of C02 (Python declaration fragment):   pydecl <schemas-id> <pkg>
   reply:  ok - <hyp> <lint> <text> | illformed <first offending declaration> <hyp> <lint> <text>
           | crash <site> <hyp> - - | unmodelled <why> - - -
-  <hyp>  = hyp:ok when PyPrintable and wfNamesPy hold for the schema, else hyp:<which fail>
+  <hyp>  = hyp:ok when PyPrintable and wfNamesPy hold for EVERY schema of the set (CPython executes the imported
+          sibling modules too), hyp:ok-local when they hold for this schema only, else hyp:<which fail>
   <lint> = lint:ok | lint:dup-names | lint:import-cycle   (outside CPython's verdict / outside the checker)
   <text> = `models/<pkg>.py` as the model prints it (marshaller off), `\`-escaped to one line.
   The verdict covers the module AND the sibling modules it imports (CPython executes those first).
@@ -131,7 +132,8 @@ def asciiNames (ss : Schemas) : Bool :=
 def pyHypText (ss : Schemas) (s : Schema) : String :=
   let a := PyPrintable pyCfg ss s
   let b := wfNamesPy pyCfg s
-  if a && b then "hyp:ok" else "hyp:" ++ (if a then "" else "not-printable") ++ (if a || b then "" else "+") ++ (if b then "" else "names")
+  let all := ss.all fun s' => PyPrintable pyCfg ss s' && wfNamesPy pyCfg s'
+  if a && b then (if all then "hyp:ok" else "hyp:ok-local") else "hyp:" ++ (if a then "" else "not-printable") ++ (if a || b then "" else "+") ++ (if b then "" else "names")
 
 def firstBadDecl (ss : Schemas) : List PyDecl → String
   | [] => "?"
